@@ -91,6 +91,11 @@ type c07Case struct {
 	// withdraw: output #0 pays to the NEXT account script (filled in from the harness keys at run time)
 	Twin bool `json:"twin,omitempty"`
 
+	// history: steps executed one after the other on ONE long-lived manager (each
+	// step carries the auctioneer terms in force at that moment in `max`);
+	// step kinds: the four operations and "quote" (QuoteAccount of acct.value)
+	Steps []c07Case `json:"steps,omitempty"`
+
 	// pure
 	Wt   uint8   `json:"wt,omitempty"`
 	Lock uint32  `json:"lock,omitempty"`
@@ -395,11 +400,49 @@ type c07Run struct {
 	r    *Run
 	e    *c07Env
 	hung int
+
+	// cur is the enclosing history while its steps run (used as the replay)
+	cur *c07Case
+}
+
+// c07Mgr is one real account manager with its recording collaborators; the
+// world the collaborators act on is swapped per operation.
+type c07Mgr struct {
+	mgr    account.Manager
+	store  *c07Store
+	auct   *c07Auctioneer
+	wallet *c07Wallet
+}
+
+func (x *c07Run) newMgr() *c07Mgr {
+	m := &c07Mgr{store: &c07Store{}, auct: &c07Auctioneer{}, wallet: &c07Wallet{}}
+	m.mgr = account.NewManager(&account.ManagerConfig{
+		Store: m.store, Auctioneer: m.auct,
+		Wallet: m.wallet, ChainNotifier: &c07Notifier{},
+		TxFeeEstimator: m.wallet,
+		Signer:         &c07Signer{sessions: map[input.MuSig2SessionID]*input.MuSig2SessionInfo{}, combined: x.e.batchKeys[0]},
+		ChainParams:    c07Params,
+		LndVersion:     &verrpc.Version{AppMajor: 0, AppMinor: 15, AppPatch: 1},
+	})
+	return m
+}
+
+func (m *c07Mgr) use(w *c07World) { m.store.w, m.auct.w, m.wallet.w = w, w, w }
+
+// rep is what a violation of the current case is replayed from.
+func (x *c07Run) rep(cs *c07Case) interface{} {
+	if x.cur != nil {
+		return x.cur
+	}
+	return cs
 }
 
 // execOp runs one whole operation through the real account manager, emits
 // the op line for the model and evaluates the oracle.
-func (x *c07Run) execOp(cs *c07Case) {
+func (x *c07Run) execOp(cs *c07Case) { x.execOpOn(cs, nil) }
+
+// execOpOn runs one whole operation on the given manager (a fresh one if nil).
+func (x *c07Run) execOpOn(cs *c07Case, mg *c07Mgr) {
 	r, e := x.r, x.e
 	acct := e.account(cs.Acct)
 	orig := acct.OutPoint
@@ -412,14 +455,11 @@ func (x *c07Run) execOp(cs *c07Case) {
 	} else {
 		cs.Faults = "000"
 	}
-	wallet := &c07Wallet{w: w}
-	mgr := account.NewManager(&account.ManagerConfig{
-		Store: &c07Store{w: w}, Auctioneer: &c07Auctioneer{w: w},
-		Wallet: wallet, ChainNotifier: &c07Notifier{},
-		Signer:      &c07Signer{sessions: map[input.MuSig2SessionID]*input.MuSig2SessionInfo{}, combined: e.batchKeys[0]},
-		ChainParams: c07Params,
-		LndVersion:  &verrpc.Version{AppMajor: 0, AppMinor: 15, AppPatch: 1},
-	})
+	if mg == nil {
+		mg = x.newMgr()
+	}
+	mg.use(w)
+	mgr := mg.mgr
 	ctx := context.Background()
 	if cs.Twin && cs.Kind == "withdraw" && len(cs.Outs) > 0 {
 		v, x := cs.Acct.Version, cs.Acct.Expiry
@@ -549,7 +589,7 @@ func (x *c07Run) execOp(cs *c07Case) {
 		// the operation blocks: report it and never touch the (still shared) world again
 		x.hung++
 		r.Count("oracle/hung")
-		r.Violate(cs.Kind+": the operation did not return within 10 s", "C07/hung", cs)
+		r.Violate(cs.Kind+": the operation did not return within 10 s", "C07/hung", x.rep(cs))
 		return
 	}
 	_ = modA
@@ -622,7 +662,7 @@ func (x *c07Run) execOp(cs *c07Case) {
 	// ---- oracle: the English statement on the real outputs ------------------
 	viol := func(what string) {
 		r.Count("oracle/violation")
-		r.Violate(cs.Kind+": "+what, "C07/"+cs.Kind, cs)
+		r.Violate(cs.Kind+": "+what, "C07/"+cs.Kind, x.rep(cs))
 	}
 	if pan != nil {
 		viol(fmt.Sprintf("panic %v", pan))
@@ -675,7 +715,7 @@ func (x *c07Run) execOp(cs *c07Case) {
 		if cs.Kind == "deposit" && len(w.leases) > 0 && !strings.HasPrefix(locks, "released:") {
 			r.Count("oracle/locks")
 			r.Violate(fmt.Sprintf("deposit refused (%s) but the %d leased wallet inputs were not all released: %s",
-				cls, len(w.leases), locks), "C07/leaked-locks", cs)
+				cls, len(w.leases), locks), "C07/leaked-locks", x.rep(cs))
 		}
 		return
 	}
@@ -704,7 +744,7 @@ func (x *c07Run) execOp(cs *c07Case) {
 		if uint64(cs.ExpH) < lo || uint64(cs.ExpH) > hi {
 			r.Count("oracle/expiry-window")
 			r.Violate(fmt.Sprintf("%s: expiry %d accepted outside [best+144, best+52560] with best=%d",
-				cs.Kind, cs.ExpH, cs.Best), "C07/expiry-window", cs)
+				cs.Kind, cs.ExpH, cs.Best), "C07/expiry-window", x.rep(cs))
 		}
 		if after.Expiry != cs.ExpH {
 			viol("new expiry not recorded")
@@ -723,7 +763,7 @@ func (x *c07Run) execOp(cs *c07Case) {
 	} else if nM != 1 || pub.LockTime != 0 {
 		r.Count("oracle/path")
 		r.Violate(fmt.Sprintf("%s: account not expired (expiry %d, best %d) but spent with %d auctioneer requests and lock time %d",
-			cs.Kind, cs.Acct.Expiry, cs.Best, nM, pub.LockTime), "C07/spend-path", cs)
+			cs.Kind, cs.Acct.Expiry, cs.Best, nM, pub.LockTime), "C07/spend-path", x.rep(cs))
 	}
 	// the account outpoint is spent exactly once
 	cnt := 0
@@ -820,7 +860,7 @@ func (x *c07Run) execOp(cs *c07Case) {
 			if fee.Cmp(rateFee) != 0 {
 				r.Count("oracle/close-fee")
 				r.Violate(fmt.Sprintf("close: fee %v is not rate %d x estimated weight %d / 1000 = %v",
-					fee, cs.Rate, weight, rateFee), "C07/close-fee-rate", cs)
+					fee, cs.Rate, weight, rateFee), "C07/close-fee-rate", x.rep(cs))
 			}
 			want = pub.TxOut
 		}
@@ -912,6 +952,82 @@ func (x *c07Run) execOp(cs *c07Case) {
 		}
 	}
 	r.Count(fmt.Sprintf("%s/ok/taproot=%v/outs=%d", cs.Kind, taproot, len(reqOuts)))
+}
+
+// execHistory runs the steps of a history on ONE long-lived manager; the
+// auctioneer terms (`max`) may differ from step to step and every step is
+// judged against the terms in force when it runs.
+func (x *c07Run) execHistory(h *c07Case) {
+	r := x.r
+	r.Count("op/history")
+	mg := x.newMgr()
+	x.cur = h
+	defer func() { x.cur = nil }()
+	var prevMax int64 = -1
+	for i := range h.Steps {
+		st := &h.Steps[i]
+		if x.hung > 0 && i > 0 {
+			return
+		}
+		if prevMax >= 0 && st.Max < prevMax {
+			r.Count("hist/terms-lowered")
+			if st.Kind == "deposit" && st.Acct.Value+st.Amount > st.Max && st.Acct.Value+st.Amount <= prevMax {
+				r.Count("hist/deposit-between-new-and-old-max")
+			}
+		} else if prevMax >= 0 && st.Max > prevMax {
+			r.Count("hist/terms-raised")
+		}
+		prevMax = st.Max
+		switch st.Kind {
+		case "withdraw", "renew", "close", "deposit":
+			x.execOpOn(st, mg)
+		case "quote":
+			x.execQuote(st, mg)
+		}
+	}
+}
+
+// execQuote calls QuoteAccount for value acct.value under the terms in force.
+func (x *c07Run) execQuote(cs *c07Case, mg *c07Mgr) {
+	r := x.r
+	w := &c07World{maxValue: btcutil.Amount(cs.Max), failTerms: cs.TermsFail}
+	mg.use(w)
+	var err error
+	var pan interface{}
+	done := make(chan struct{})
+	go func() {
+		defer close(done)
+		defer func() { pan = recover() }()
+		_, _, err = mg.mgr.QuoteAccount(context.Background(), btcutil.Amount(cs.Acct.Value), 6)
+	}()
+	select {
+	case <-done:
+	case <-time.After(10 * time.Second):
+		x.hung++
+		r.Violate("quote: the operation did not return within 10 s", "C07/hung", x.rep(cs))
+		return
+	}
+	r.Evaluations++
+	r.Count("op/quote")
+	if pan != nil {
+		r.Violate(fmt.Sprintf("quote panics: %v", pan), "C07/quote", x.rep(cs))
+		return
+	}
+	if cs.TermsFail {
+		if err == nil {
+			r.Violate("quote succeeds although the terms could not be fetched", "C07/quote", x.rep(cs))
+		}
+		return
+	}
+	res := c07Res(err)
+	r.Count("quote/" + res)
+	// oracle: accepted iff min <= value <= the maximum in force NOW
+	if (err == nil) != (cs.Acct.Value >= 100000 && cs.Acct.Value <= cs.Max) {
+		r.Count("oracle/quote")
+		r.Violate(fmt.Sprintf("quote of %d with the auctioneer's maximum %d in force: accepted=%v",
+			cs.Acct.Value, cs.Max, err == nil), "C07/quote", x.rep(cs))
+	}
+	r.Emit(fmt.Sprintf("C07 value %d %d", cs.Acct.Value, cs.Max), res)
 }
 
 // ---------------------------------------------------------------- pure functions
@@ -1167,7 +1283,9 @@ func runC07(r *Run) {
 		"downgrades and unknown versions, all account states, fee rates 0..floor..1e6 sat/kw, 0-5 outputs of " +
 		"P2WKH/P2SH/P2WSH/P2TR/P2PKH/nulldata/non-standard with dust-edge, over-spend and negative amounts, " +
 		"expiries at the window edges incl. the uint32 wrap corner, cooperative and expiry paths, injected " +
-		"collaborator faults; plus direct calls of valueAfterAccountUpdate, CloseOutputs, " +
+		"collaborator faults; histories of 2-4 operations / quotes on ONE long-lived manager while the " +
+		"auctioneer's maximum account value is lowered or raised between the steps (each step judged " +
+		"against the terms in force); plus direct calls of valueAfterAccountUpdate, CloseOutputs, " +
 		"sanityCheckAccountSpendTx, validateAccountExpiry/Value, dust rule; non-trivial = accepted operation " +
 		"(distinct op line) or accepted pure call"
 	x := &c07Run{r: r, e: newC07Env()}
@@ -1175,6 +1293,8 @@ func runC07(r *Run) {
 		switch cs.Kind {
 		case "withdraw", "renew", "close", "deposit":
 			x.execOp(cs)
+		case "history":
+			x.execHistory(cs)
 		default:
 			x.execPure(cs)
 		}
@@ -1204,6 +1324,9 @@ func runC07(r *Run) {
 			break
 		}
 		run(g.genOp())
+		if c%4 == 0 {
+			run(g.genHistory())
+		}
 		for i := 0; i < 4; i++ {
 			run(g.genPure())
 		}
